@@ -31,12 +31,79 @@ func runC07(c *core.Ctx) {
 	c.Rule("R5", "every write bumps the version token", 3)
 	c.Rule("R6", "wrappers forward f unchanged to exactly one inner CAS", 6)
 	c.Rule("R7", "in-memory stores return copies of stored entries", 1)
+	c.Rule("R8", "the instrumented consul API answers with the wrapped call's own results (the CAS success flag is the store's flag)", 3)
 	c07Consul(c)
 	c07Etcd(c)
 	c07Memberlist(c)
 	c07ConsulMock(c)
 	c07EtcdMock(c)
 	c07Wrappers(c)
+	c07ConsulAPI(c)
+}
+
+// c07ConsulAPI (R8): consul.Client talks to the store through consulInstrumentation, which times each
+// request. R3 decides "success only on a confirmed write" from the flag consul.Client.cas receives, so the
+// wrapper must hand on the flag (and the pair/meta results) of the wrapped call itself: every non-error
+// result of a wrapper method is a variable whose only assignments come from the same-named call on
+// recv.kv, at the same result position.
+func c07ConsulAPI(c *core.Ctx) {
+	pkg := c.Prog.Pkg("kv/consul")
+	if pkg == nil {
+		c.Miss("R8", "pkg=kv/consul", "not loaded")
+		return
+	}
+	for _, m := range []string{"CAS", "Get", "List"} {
+		fn := an.FindFunc(pkg, "consulInstrumentation."+m)
+		if fn == nil {
+			c.Miss("R8", "func=consulInstrumentation."+m, "not found")
+			continue
+		}
+		c.Analysed(fn.String())
+		var inner []an.Call
+		for _, call := range fn.Calls(true) {
+			if sel, ok := call.Expr.Fun.(*ast.SelectorExpr); ok && sel.Sel.Name == m && call.In.Canon(sel.X) == "recv.kv" {
+				inner = append(inner, call)
+			}
+		}
+		var bad []string
+		rets := 0
+		for _, b := range fn.Graph().Blocks {
+			r := an.ReturnOf(b)
+			if r == nil {
+				continue
+			}
+			rets++
+			for i := 0; i+1 < len(r.Results); i++ { // all but the error
+				id, ok := an.Unparen(r.Results[i]).(*ast.Ident)
+				if !ok {
+					bad = append(bad, fmt.Sprintf("result %d is %s", i, fn.Canon(r.Results[i])))
+					continue
+				}
+				obj := fn.ObjOf(id)
+				from := 0
+				for _, d := range fn.DefSites(obj) {
+					if d.Zero {
+						continue
+					}
+					okDef := false
+					for _, ic := range inner {
+						if d.Expr == ast.Expr(ic.Expr) && strings.HasSuffix(d.Canon, fmt.Sprintf("#%d", i)) {
+							okDef = true
+						}
+					}
+					if okDef {
+						from++
+					} else {
+						bad = append(bad, fmt.Sprintf("result %d (%s) is also assigned %s", i, id.Name, d.Canon))
+					}
+				}
+				if from == 0 {
+					bad = append(bad, fmt.Sprintf("result %d (%s) is never assigned from recv.kv.%s", i, id.Name, m))
+				}
+			}
+		}
+		c.Check(len(inner) == 1 && rets > 0 && len(bad) == 0, "R8", "func=consulInstrumentation."+m, fn.Pos(), fmt.Sprintf("one wrapped recv.kv.%s call (%d); every non-error result is that call's result at the same position: %v", m, len(inner), bad), rets)
+	}
 }
 
 // loopOf returns the innermost for/range statement of fn containing n.
